@@ -6,13 +6,22 @@ Three routes, all exhaustive over stated lattices:
           roving counts x every ordered placement of the references) around payload matrices G and a covering design of
           per-setup/per-mode factors;
   class   MultiSetup_PoSER(...).merge_results() on SingleSetups whose algorithms carry directly assigned results
-          (Phi = c * G restricted, Fn/Xi from the payload): Phi, order, mean and population std / mean;
+          (Phi = c * G restricted, Fn/Xi from the payload): Phi, order, mean and population std / mean; also after the
+          setups' results have been replaced / re-extracted once the PoSER object exists (see "Order of legal operations");
   e2e     2-3 SingleSetups fed with noise-free free-decay records of ONE global system (own generator below) at
           different amplitudes, identified with SSIcov, extracted at order 2m, merged with MultiSetup_PoSER.
 
 Reference model: one global matrix G (rows: references in the first setup's reference order, then the roving sensors
 of setup 1, 2, ... in channel order); setup i sees c[i,k] * G[rows_i, k] in its own channel order; the merged shape
 must be c[0,k] * G[:, k].
+
+Order of legal operations (axes OPS x SUBSETS x SEQS, class route and end-to-end route): what merge_results() returns is a
+function of the results the setups hold WHEN it is called. On a fixed third of the class-route layouts and a fixed fifth of
+the end-to-end cases the PoSER object is built FIRST, from setups of which a subset still holds a discarded first attempt;
+then those setups get new results by a legal operation (a new algorithm object under the existing name, rollback() and a
+new object, a new result object on the same algorithm, new values on the same result object / run_by_name + mpe again),
+in the sequences change-merge, merge-change-merge, change-merge-merge, change-merge-change-merge; every merge is judged
+against the reference model evaluated on the setups' CURRENT results.
 
 Overall level of G (lattice axis LEVELS): the statement quantifies over EVERY global mode-shape matrix, not only over
 unit-normalised ones, so the merge and class routes are also executed with G multiplied by 1e-6, 1e-3, 1e3, 1e6
@@ -34,11 +43,14 @@ ID = "C02"
 TECHNIQUE = ("bounded-exhaustive enumeration of sensor layouts (every ordered placement of the reference sensors in every "
              "setup) around payload mode-shape matrices with a covering design of scale factors; executable reference "
              "model (one global matrix G) compared with gen.merge_mode_shapes, gen.flatten_sns_names and "
-             "MultiSetup_PoSER.merge_results on every element; plus an end-to-end lattice through SingleSetup/SSIcov")
+             "MultiSetup_PoSER.merge_results on every element; plus an end-to-end lattice through SingleSetup/SSIcov; on both class "
+             "routes also sequences of legal operations (re-doing setups, merging) on one existing MultiSetup_PoSER object")
 LEVEL_TEXT = ("every element of the stated layout lattice is executed on the real functions/classes and compared with the "
               "reference model; real numbers come from a payload alphabet selected by VERIF_SEED")
 RULE = ("a case is one (layout, number of modes, real/complex kind, factor rotation, overall level of G) for the function "
-        "route, one (layout, level) for the class route, one (layout, modes, dominant-shift) for the end-to-end route; non-trivial = some setup "
+        "route, one (layout, level) for the class route, one (layout, operation, subset of setups re-done, sequence of changes "
+        "and merges) for the order-of-operations cases of the class route, one (layout, modes, dominant-shift) for the end-to-end "
+        "route plus one (layout, modes, dominant-shift, operation, subset, merged-before) for its order-of-operations cases; non-trivial = some setup "
         "i >= 2 with at least one roving sensor has |c[i,k]| != |c[1,k]| for some mode k (so multiplying by the factor "
         "and by its inverse differ); for the end-to-end route the factor is MEASURED on the shapes each setup "
         "identified (least-squares ratio on the reference rows, | |alpha| - 1 | > 0.05); distinct by lattice index")
@@ -59,6 +71,16 @@ ASSUMPTIONS = [
     "{1e-6, 1e-3, 1, 1e3, 1e6}; every pre-existing case runs at level 1, the other four levels are covered by additional "
     "cases (covering design over level x factor rotation x kind, see bounds); levels beyond 1e+-6 and the end-to-end route "
     "(SSI normalises every identified shape to a unit component, the level of the records is the gain axis) are not varied",
+    "order of operations: between the construction of the MultiSetup_PoSER object and a merge_results() call the setups "
+    "may legally get new results - add_algorithms with an existing name (replaces the object), rollback() followed by "
+    "add_algorithms, a new result object on the same algorithm (run_by_name + mpe), new values on the same result object "
+    "(mpe again); the merge is judged against the setups' CURRENT results. Class route: operations x subsets {first, last, "
+    "second, all, all-but-first} x sequences {C-M, M-C-M, C-M-M, C-M-C-M} by a covering design over every third layout; the "
+    "setups to be re-done start from the restriction of ANOTHER global matrix (a discarded attempt), so a merge executed while "
+    "setups disagree on the global matrix is judged on Fn/Xi (mean, population std / mean) only - the premise on the shapes is "
+    "not met there. End-to-end: the discarded attempt is an mpe with the modes picked in rotated order, the re-analysis a "
+    "real run_by_name + mpe; every fifth case. Operations that change a setup's channel count or the number/type/order "
+    "of its algorithms, and the results of a setup changed DURING a merge, are not in the space",
     "tolerances: 1e-10 relative (function/class route), 1e-12 for mean/std, 1e-6 relative for end-to-end shapes "
     "(observed 1e-12), 1e-7 / 1e-6 for end-to-end Fn / Xi",
 ]
@@ -424,6 +446,183 @@ def judge_class(t, seed, nref, nrov, places, nmodes, kind, rot, shift, two_algs,
 
 
 # ---------------------------------------------------------------------------------------------
+# route 2b: order of legal operations around an EXISTING MultiSetup_PoSER object
+#
+# The statement speaks of "each setup's mode-shape matrix" and of means "over the setups": what a merge returns is a function
+# of the results the setups hold WHEN merge_results() is called, whatever was done to the setups between the construction of
+# the PoSER object and the merge. Legal operations on a SingleSetup that give it new results (an analyst re-doing a setup):
+#   replace               add_algorithms(<new algorithm object with the existing name>) - overwrites the dictionary entry
+#   rollback-readd        rollback() (empties the setup's algorithms) followed by add_algorithms(<new objects>)
+#   rerun-same-object     the same algorithm object gets a new result object (what run_by_name + mpe do)
+#   re-extract-in-place   the same result object gets new Fn / Xi / Phi (what a second mpe() does)
+# Every merge of a sequence is judged against the reference model evaluated on the setups' CURRENT results.
+
+OPS = ("replace", "rollback-readd", "rerun-same-object", "re-extract-in-place")
+SUBSETS = ("first", "last", "second", "all", "all-but-first")
+SEQS = ("C-M", "M-C-M", "C-M-M", "C-M-C-M")          # C = change the results of a subset of setups, M = merge_results() (judged)
+GSEL = ("both", "first-group", "second-group")       # which algorithm group(s) a change touches when there are two
+OLD_SHIFT = 11                                       # the discarded first attempt saw another global matrix (wrong modes picked)
+
+
+def subset_members(name, nset):
+    return {"first": [0], "last": [nset - 1], "second": [1], "all": list(range(nset)),
+            "all-but-first": list(range(1, nset))}[name]
+
+
+def ops_plan(q):
+    """(op, subset, sequence, group selection, two algorithm groups) of ops case number q.
+
+    op = q mod 4 and sequence = (q div 4) mod 4 run through their 16 pairs in 16 consecutive q, the subset has period 5:
+    all 80 (op, subset, sequence) triples within any 80 consecutive q; two groups on every third block of two."""
+    return OPS[q % 4], SUBSETS[q % 5], SEQS[(q // 4) % 4], GSEL[(q // 3) % 3], (q // 2) % 3 == 0
+
+
+def judge_class_ops(t, seed, nref, nrov, places, nmodes, kind, rot, shift, two_algs, op, subset, seq, gsel, nt_id=None, level=1.0):
+    nset = len(nrov)
+    rows, ntot = layout_rows(nref, nrov, places)
+    Gs = [global_matrix(seed, kind, ntot, nmodes, shift),                               # 0: the global matrix
+          global_matrix(seed, kind, ntot, nmodes, (shift + OLD_SHIFT) % POOL_ROWS)]     # 1: what the discarded attempt saw
+    if level != 1.0:
+        Gs = [level * g for g in Gs]
+    oks = [guard_modes(g, nref, kind) for g in Gs]
+    case = {"route": "class-ops", "seed": seed, "nref": nref, "nrov": list(nrov), "places": [list(p) for p in places],
+            "nmodes": nmodes, "kind": kind, "rot": rot, "shift": shift, "two_algs": bool(two_algs), "level": level,
+            "op": op, "subset": subset, "seq": seq, "gsel": gsel}
+    t.states += 1
+    if not oks[0].any():
+        t.skipped_by_guard += 1
+        return
+    groups = [("cov", SSIcov, rot, "a")] + ([("dat", SSIdat, (rot + 3) % 10, "b")] if two_algs else [])
+    touched = [g[0] for g in groups] if (gsel == "both" or not two_algs) else [groups[0 if gsel == "first-group" else 1][0]]
+    iop, isub = OPS.index(op), SUBSETS.index(subset)
+    # the changes of this sequence: (operation, setups, generation it installs)
+    changes = [(op, subset_members(subset, nset), 1)]
+    if seq == "C-M-C-M":
+        changes.append((OPS[(iop + 1) % 4], subset_members(SUBSETS[(isub + 2) % 5], nset), 2))
+    first_changed = set(changes[0][1])
+
+    def values(gname, s, gen, gidx):
+        """Results of generation gen for setup s of a group: own factors, own Fn/Xi, restriction of global matrix gidx."""
+        _, _, grot, tag = [g for g in groups if g[0] == gname][0]
+        c = factors(nset, nmodes, (grot + 3 * gen) % 10)[s]
+        Fn, Xi = stat_payload(seed, f"{tag}/{shift}/gen{gen}", nset, nmodes)
+        return c, Fn[s].copy(), Xi[s].copy(), Gs[gidx][rows[s], :] * c[None, :]
+
+    # state of the reference model: per group and setup the (generation, global matrix) its CURRENT result was made from
+    cur = {}
+    setups = [SingleSetup(np.zeros((4, nref + r)), fs=10.0) for r in nrov]
+    for gname, cls, grot, tag in groups:
+        for s in range(nset):
+            # setups that are going to be re-done start from the discarded attempt (other global matrix)
+            gidx = 1 if s in first_changed else 0
+            c, Fn, Xi, Phi = values(gname, s, 0, gidx)
+            alg = cls(name=f"{tag}{s}", br=2)
+            alg.result = SSIResult(Fn=Fn, Xi=Xi, Phi=Phi)
+            setups[s].add_algorithms(alg)
+            cur[(gname, s)] = (0, gidx)
+
+    def apply(cop, members, gen):
+        for s in members:
+            which = [g[0] for g in groups] if cop == "rollback-readd" else touched
+            if cop == "rollback-readd":
+                setups[s].rollback()                      # legal: restores the data, forgets the setup's algorithms
+                fresh = []
+            for gname, cls, grot, tag in groups:
+                if gname not in which:
+                    continue
+                c, Fn, Xi, Phi = values(gname, s, gen, 0)
+                name = f"{tag}{s}"
+                if cop == "replace":
+                    alg = cls(name=name, br=2)
+                    alg.result = SSIResult(Fn=Fn, Xi=Xi, Phi=Phi)
+                    setups[s].add_algorithms(alg)
+                elif cop == "rollback-readd":
+                    alg = cls(name=name, br=2)
+                    alg.result = SSIResult(Fn=Fn, Xi=Xi, Phi=Phi)
+                    fresh.append(alg)
+                elif cop == "rerun-same-object":
+                    setups[s][name].result = SSIResult(Fn=Fn, Xi=Xi, Phi=Phi)
+                else:
+                    r = setups[s][name].result
+                    r.Fn, r.Xi, r.Phi = Fn, Xi, Phi
+                cur[(gname, s)] = (gen, 0)
+            if cop == "rollback-readd":
+                if (s + gen) % 2:
+                    setups[s].add_algorithms(*fresh)
+                else:
+                    for alg in fresh:
+                        setups[s].add_algorithms(alg)
+
+    def judge(res, after):
+        good = True
+        if sorted(res.keys()) != sorted(g[0] for g in groups):
+            t.violation(f"poser-ops:{after}:result-keys", f"merge_results keys {sorted(res.keys())}", case)
+            return False
+        for gname, cls, grot, tag in groups:
+            r = res[gname]
+            st = [cur[(gname, s)] for s in range(nset)]
+            vals = [values(gname, s, st[s][0], st[s][1]) for s in range(nset)]
+            c = np.array([v[0] for v in vals])
+            gidx = {x[1] for x in st}
+            if len(gidx) == 1 and not oks[min(gidx)].any():
+                t.not_judged += nmodes                    # complex-shape guard (from the global matrix in force), as in the class route
+            elif len(gidx) == 1:
+                # the premise holds: every setup's current matrix is a restriction of ONE global matrix
+                gi = min(gidx)
+                good &= compare_shape(t, r.Phi, Gs[gi], c, oks[gi], nref, nrov, f"poser-ops:{after}", case)
+                t.outcomes["class-ops:Phi-judged"] += 1
+            else:
+                # some setups still hold the discarded attempt (another global matrix): the premise on the shapes is not met
+                t.not_judged += nmodes
+                t.outcomes["class-ops:Phi-not-judged(setups-disagree-on-the-global-matrix)"] += 1
+            for nm, x, got_mu, got_cv in (("Fn", np.array([v[1] for v in vals]), r.Fn, r.Fn_cov),
+                                          ("Xi", np.array([v[2] for v in vals]), r.Xi, r.Xi_cov)):
+                mu, cv = mean_popstd(x)
+                for label, a, b in ((nm, got_mu, mu), (nm + "_cov", got_cv, cv)):
+                    a = np.asarray(a, float)
+                    t.validated += 1
+                    if a.shape != b.shape or not np.all(np.abs(a - b) <= TOL_STAT * np.maximum(np.abs(b), 1e-3)):
+                        t.violation(f"poser-ops:{after}:{label}", f"{label} = {a.tolist()}, expected {b.tolist()} (arithmetic mean / "
+                                    f"population std over mean of the setups' CURRENT results {x.tolist()})", case)
+                        good = False
+                    else:
+                        t.err(f"poser-ops:{label}", float(np.max(np.abs(a - b))))
+            if nontrivial_factors(c, nrov) and nt_id is not None:
+                t.nontrivial.add(nt_id)
+        return good
+
+    t.evaluations += 1
+    good = True
+    after = "before-any-change"
+    todo = list(changes)
+    try:
+        msp = MultiSetup_PoSER(ref_ind=[list(p) for p in places], single_setups=setups, names=[g[0] for g in groups])
+        for step in seq.split("-"):
+            if step == "C":
+                cop, members, gen = todo.pop(0)
+                apply(cop, members, gen)
+                after = f"after-{cop}"
+            else:
+                t.transitions += 1
+                res = msp.merge_results()
+                good &= judge(res, after)
+    except Exception as e:
+        t.violation(f"raises:{type(e).__name__}:MultiSetup_PoSER-ops", f"PoSER construction / {after} / merge_results raised "
+                    f"{type(e).__name__}: {e}", case)
+        return
+    t.outcomes[f"class-ops:{'ok' if good else 'BAD'}"] += 1
+    t.outcomes[f"class-ops:op={op}:seq={seq}"] += 1
+    t.outcomes[f"class-ops:op={op}:setups={subset}"] += 1
+    t.outcomes[f"class-ops:{'two-algorithms:' + gsel if two_algs else 'one-algorithm'}"] += 1
+    if 0 in first_changed:
+        t.outcomes["class-ops:first-setup-re-done"] += 1
+    if any(nrov[s] > 0 for s in first_changed if s > 0):
+        t.outcomes["class-ops:later-setup-with-roving-re-done"] += 1
+    if level != 1.0:
+        t.outcomes["class-ops:non-unit-level"] += 1
+
+
+# ---------------------------------------------------------------------------------------------
 # route 3: end to end through SingleSetup + SSIcov (own small free-decay generator)
 
 E2E_FS = 100.0
@@ -465,7 +664,20 @@ def ls_ratio(a, b):
     return np.vdot(a, b) / np.vdot(a, a)
 
 
-def judge_e2e(t, seed, nref, nrov, places, m, dshift, nt_id=None):
+E2E_OPS = ("replace", "rollback-readd", "re-mpe-same-object", "rerun-same-object")
+
+
+def e2e_ops_plan(k):
+    """(operation, subset of setups re-analysed, merge once before the re-analysis) of end-to-end ops case number k:
+    periods 4, 5 and (k div 4) mod 2 - all 40 triples within any 40 consecutive k."""
+    return E2E_OPS[k % 4], SUBSETS[k % 5], (k // 4) % 2 == 1
+
+
+def judge_e2e(t, seed, nref, nrov, places, m, dshift, nt_id=None, ops=None):
+    """ops = None: analyse every setup, build the PoSER object, merge. ops = (operation, subset, premerge): the setups of
+    the subset are first analysed with a slip (the modes picked in rotated order), the PoSER object is built (and merged once
+    if premerge), THEN those setups are re-analysed correctly by the given legal operation, then merge_results() is judged."""
+    pre = "e2e" if ops is None else "e2e-ops"
     nset = len(nrov)
     rows, ntot = layout_rows(nref, nrov, places)
     # dominant component of mode k: first roving sensor of setup (k + dshift) % nset
@@ -474,15 +686,15 @@ def judge_e2e(t, seed, nref, nrov, places, m, dshift, nt_id=None):
     fn, xi, lam, G = e2e_system(seed, m, ntot, dom)
     br = 2 * m + 2
     case = {"route": "e2e", "seed": seed, "nref": nref, "nrov": list(nrov), "places": [list(p) for p in places],
-            "m": m, "dshift": dshift}
+            "m": m, "dshift": dshift, "ops": list(ops) if ops is not None else None}
     t.states += 1
     amps = []
     for s in range(nset):
         a = payload.uniform(seed, f"c02/e2e/a/{s}", m, 1.0, 2.0) * np.exp(1j * payload.uniform(seed, f"c02/e2e/p/{s}", m, 0, 2 * np.pi))
         amps.append(a)
         cO, cX = e2e_guard(lam, G[rows[s]], a, br)
-        t.err("e2e:cond-obs", cO)
-        t.err("e2e:cond-states", cX)
+        t.err(f"{pre}:cond-obs", cO)
+        t.err(f"{pre}:cond-states", cX)
         if not (cO <= 1e6 and cX <= 1e8):
             t.skipped_by_guard += 1
             return
@@ -490,6 +702,9 @@ def judge_e2e(t, seed, nref, nrov, places, m, dshift, nt_id=None):
     shapes = []
     t.evaluations += 1
     t.transitions += 1
+    right = [float(f) for f in fn]
+    slip = [float(f) for f in np.roll(fn, -1)]          # first attempt of a setup that is re-analysed later: modes in rotated order
+    members = subset_members(ops[1], nset) if ops is not None else []
     try:
         for s in range(nset):
             Y = E2E_GAINS[(s + dshift) % 3] * decay(lam, G[rows[s]], amps[s], E2E_N, E2E_FS)
@@ -497,13 +712,27 @@ def judge_e2e(t, seed, nref, nrov, places, m, dshift, nt_id=None):
             alg = SSIcov(name=f"ssi{s}", br=br, ordmax=2 * m, method="cov_mm", hc=dict(NH))
             ss.add_algorithms(alg)
             ss.run_all()
-            ss.mpe(f"ssi{s}", sel_freq=[float(f) for f in fn], order=2 * m)
+            ss.mpe(f"ssi{s}", sel_freq=slip if s in members else right, order=2 * m)
             setups.append(ss)
-            shapes.append(np.array(alg.result.Phi))
         msp = MultiSetup_PoSER(ref_ind=[list(p) for p in places], single_setups=setups, names=["ssi"])
+        if ops is not None:
+            op, _, premerge = ops
+            if premerge:
+                msp.merge_results()                     # a merge of the state with the slip (not judged: the premise is not met)
+            for s in members:
+                ss, name = setups[s], f"ssi{s}"
+                if op == "rollback-readd":
+                    ss.rollback()
+                if op in ("replace", "rollback-readd"):
+                    ss.add_algorithms(SSIcov(name=name, br=br, ordmax=2 * m, method="cov_mm", hc=dict(NH)))
+                if op != "re-mpe-same-object":
+                    ss.run_by_name(name)
+                ss.mpe(name, sel_freq=right, order=2 * m)
+        for s in range(nset):
+            shapes.append(np.array(setups[s][f"ssi{s}"].result.Phi))      # the setups' CURRENT results
         res = msp.merge_results()["ssi"]
     except Exception as e:
-        t.violation(f"raises:{type(e).__name__}:e2e", f"end-to-end route raised {type(e).__name__}: {e}", case)
+        t.violation(f"raises:{type(e).__name__}:{pre}", f"end-to-end route raised {type(e).__name__}: {e}", case)
         return
     # measured non-triviality: factor between setup i and setup 1 on the reference rows of the IDENTIFIED shapes
     measured = False
@@ -516,17 +745,17 @@ def judge_e2e(t, seed, nref, nrov, places, m, dshift, nt_id=None):
                 continue
             if abs(abs(al) - 1) > 0.05:
                 measured = True
-                t.outcomes["e2e:measured-factor>1" if abs(al) > 1 else "e2e:measured-factor<1"] += 1
-                t.outcomes["e2e:measured-factor-negative" if al.real < 0 else "e2e:measured-factor-positive"] += 1
+                t.outcomes[f"{pre}:measured-factor>1" if abs(al) > 1 else f"{pre}:measured-factor<1"] += 1
+                t.outcomes[f"{pre}:measured-factor-negative" if al.real < 0 else f"{pre}:measured-factor-positive"] += 1
             else:
-                t.outcomes["e2e:measured-factor~1"] += 1
+                t.outcomes[f"{pre}:measured-factor~1"] += 1
     if measured and nt_id is not None:
         t.nontrivial.add(nt_id)
     # expectation: global shape in the scale of the first setup = unit largest component among setup 1's sensors
     good = True
     Phi = np.asarray(res.Phi)
     if Phi.shape != (ntot, m):
-        t.violation("e2e:shape", f"merged Phi shape {Phi.shape}, expected {(ntot, m)}", case)
+        t.violation(f"{pre}:shape", f"merged Phi shape {Phi.shape}, expected {(ntot, m)}", case)
         return
     for k in range(m):
         g1 = G[rows[0], k]
@@ -534,12 +763,12 @@ def judge_e2e(t, seed, nref, nrov, places, m, dshift, nt_id=None):
         exp = G[:, k] / G[r1, k]
         d = np.abs(Phi[:, k] - exp) / np.max(np.abs(exp))
         e = float(np.max(d)) if np.all(np.isfinite(d)) else np.inf
-        t.err("e2e:Phi-rel", e if np.isfinite(e) else 1e300)
+        t.err(f"{pre}:Phi-rel", e if np.isfinite(e) else 1e300)
         t.validated += 1
         if not e <= 1e-6:
             bad = [int(r) for r in np.where(~(d <= 1e-6))[0]]
             r0 = bad[0]
-            t.violation(f"e2e:Phi:{where_wrong(bad, nref, nrov)}",
+            t.violation(f"{pre}:Phi:{where_wrong(bad, nref, nrov)}",
                         f"mode {k}: merged row {r0} = {Phi[r0, k]:.6g}, global shape in the first setup's scale = {exp[r0]:.6g} "
                         f"(ratio {Phi[r0, k] / exp[r0]:.6g}); rows wrong {bad}", case)
             good = False
@@ -547,17 +776,20 @@ def judge_e2e(t, seed, nref, nrov, places, m, dshift, nt_id=None):
         got = np.asarray(got, float)
         t.validated += 1
         if got.shape != ref.shape or not np.all(np.abs(got - ref) <= tol * np.abs(ref)):
-            t.violation(f"e2e:{nm}", f"merged {nm} = {got.tolist()}, true {ref.tolist()}", case)
+            t.violation(f"{pre}:{nm}", f"merged {nm} = {got.tolist()}, true {ref.tolist()}", case)
             good = False
         else:
-            t.err(f"e2e:{nm}-rel", float(np.max(np.abs(got - ref) / np.abs(ref))))
+            t.err(f"{pre}:{nm}-rel", float(np.max(np.abs(got - ref) / np.abs(ref))))
     for nm, got in (("Fn_cov", res.Fn_cov), ("Xi_cov", res.Xi_cov)):
         got = np.asarray(got, float)
         t.validated += 1
         if got.shape != (m,) or not np.all(np.abs(got) <= 1e-6):
-            t.violation(f"e2e:{nm}", f"{nm} = {got.tolist()} for setups that all see the same poles (expected ~0)", case)
+            t.violation(f"{pre}:{nm}", f"{nm} = {got.tolist()} for setups that all see the same poles (expected ~0)", case)
             good = False
-    t.outcomes[f"e2e:{'ok' if good else 'BAD'}"] += 1
+    t.outcomes[f"{pre}:{'ok' if good else 'BAD'}"] += 1
+    if ops is not None:
+        t.outcomes[f"e2e-ops:op={ops[0]}:setups={ops[1]}"] += 1
+        t.outcomes[f"e2e-ops:op={ops[0]}:{'merged-before-the-re-analysis' if ops[2] else 'first-merge-after-the-re-analysis'}"] += 1
 
 
 # ---------------------------------------------------------------------------------------------
@@ -598,6 +830,14 @@ def work_merge(item):
                 # (periods 8, 5, 3: every (level, rotation 0..9, kind) triple within 120 consecutive q)
                 judge_class(t, seed, nref, nrov, places, nm, KINDS[q % 3], (q % 5) + 5 * ((q // 4) % 2), shift,
                             ((q // 8) % 4 == 0), nt_id=("cl", lid), level=NONUNIT[q % 4])
+            if j % 3 == 2 or nlay < 3:
+                # order of legal operations around an existing PoSER object (operation, subset of setups, sequence of
+                # changes and merges, group selection, level and kind all cycle with the case number q)
+                q = j // 3 + 5 * sidx
+                op, subset, seq, gsel, two2 = ops_plan(q)
+                lev = NONUNIT[(q // 20) % 4] if (q // 5) % 4 == 0 else 1.0
+                judge_class_ops(t, seed, nref, nrov, places, nm, KINDS[q % 3], (q + sidx) % 10, shift, two2, op, subset, seq, gsel,
+                                nt_id=("co", lid), level=lev)
         if j == part and part == 0 and sidx % 37 == 0:
             t.sample({"route": "merge", "nref": nref, "nrov": list(nrov), "places": [list(p) for p in places],
                       "variants_on_this_layout": len(vs)})
@@ -638,6 +878,9 @@ def work_e2e(item):
     idx, (nref, nrov, places, m, dshift) = item
     t = Tally()
     judge_e2e(t, _CFG["seed"], nref, nrov, places, m, dshift, nt_id=("e", idx))
+    if idx % 5 == 2:
+        # the same case with an order of operations: slip, PoSER object, re-analysis of a subset of setups, merge
+        judge_e2e(t, _CFG["seed"], nref, nrov, places, m, dshift, nt_id=("eo", idx), ops=e2e_ops_plan(idx // 5))
     if idx % 97 == 0:
         t.sample({"route": "e2e", "nref": nref, "nrov": list(nrov), "places": [list(p) for p in places], "m": m, "dshift": dshift,
                   "max_err": dict(t.max_err)})
@@ -683,12 +926,28 @@ def explore(ctx):
                           "fourth block of 8 with two algorithm groups",
             "layouts": nlayouts, "slices": sidx,
             "class_route": "one PoSER merge per layout with <= 3 setups (thorough: plus the 4-setup layouts of the quick lattice); every 4th with two algorithm groups",
+            "order_of_operations": {
+                "where": "class route, on every third layout (every layout of slices with fewer than 3 layouts): the PoSER object is built "
+                         "FIRST, from setups of which a subset still holds a discarded first attempt (restriction of another global "
+                         "matrix, other factors, other Fn/Xi), then the sequence of changes (C) and merges (M) is executed on that one "
+                         "object; every M is judged against the setups' CURRENT results (Phi only when all setups agree on the global matrix)",
+                "operations": list(OPS), "setups_re_done": list(SUBSETS), "sequences": list(SEQS),
+                "second change of C-M-C-M": "next operation of the list on the subset two places further, a third generation of factors / Fn / Xi",
+                "two_groups": "every third block of two case numbers; the change touches " + ", ".join(GSEL) + " (rollback renews all groups)",
+                "covering": "operation = q mod 4, subset = q mod 5, sequence = (q div 4) mod 4, kind = q mod 3, one block of five in four at a "
+                            "non-unit level of G; all 80 (operation, subset, sequence) triples within 80 consecutive case numbers q",
+            },
         },
         "e2e route": {"cases": len(e2e), "setups": [2, 3], "references": [1, 2, 3] if ctx.thorough else [1, 2],
                       "roving_per_setup": [1, 2, 3] if ctx.thorough else [1, 2], "modes": [2, 3, 4] if ctx.thorough else [2, 3],
                       "placements": "{first, last, reversed}; product for 2 setups, diagonal for 3",
                       "dominant_shift": "mode k's largest component (1.6 vs <= 1) is the first roving sensor of setup (k+shift) % n_setups, shift = 0..n_setups-1",
-                      "record gains": E2E_GAINS, "samples": E2E_N, "fs": E2E_FS, "br": "2m+2", "order": "2m"},
+                      "record gains": E2E_GAINS, "samples": E2E_N, "fs": E2E_FS, "br": "2m+2", "order": "2m",
+                      "order_of_operations": "every fifth case is executed a second time as: the setups of a subset " + str(list(SUBSETS)) +
+                                             " are analysed with a slip (modes picked in rotated order), the PoSER object is built (and on "
+                                             "every second block of four merged once), the subset is re-analysed by one of " + str(list(E2E_OPS)) +
+                                             " (new SSIcov under the same name / rollback() and a new SSIcov / mpe again on the same object / "
+                                             "run_by_name and mpe again on the same object), then merge_results() is judged as in the plain case"},
         "payload": f"mc.payload pools keyed by VERIF_SEED={ctx.seed}",
     }
     # biggest items first for load balance
@@ -702,7 +961,15 @@ def explore(ctx):
                 "e2e:measured-factor-positive",
                 *[f"{r}:level={level_tag(lv)}" for r in ("merge", "class") for lv in LEVELS],
                 *[f"{r}:{a}-level-x-{b}-factor-on-later-roving-setup" for r in ("merge", "class")
-                  for a in ("tiny", "huge") for b in ("smallest", "largest")])
+                  for a in ("tiny", "huge") for b in ("smallest", "largest")],
+                # order of operations around an existing PoSER object: every operation with every sequence and every subset
+                "class-ops:ok", "class-ops:Phi-judged", "class-ops:first-setup-re-done", "class-ops:later-setup-with-roving-re-done",
+                "class-ops:one-algorithm", "class-ops:non-unit-level", *[f"class-ops:two-algorithms:{g}" for g in GSEL],
+                *[f"class-ops:op={o}:seq={q}" for o in OPS for q in SEQS],
+                *[f"class-ops:op={o}:setups={u}" for o in OPS for u in SUBSETS],
+                "e2e-ops:ok", "e2e-ops:measured-factor>1", "e2e-ops:measured-factor<1",
+                *[f"e2e-ops:op={o}:setups={u}" for o in E2E_OPS for u in SUBSETS],
+                *[f"e2e-ops:op={o}:{w}" for o in E2E_OPS for w in ("merged-before-the-re-analysis", "first-merge-after-the-re-analysis")])
 
 
 def replay(case):
@@ -719,7 +986,12 @@ def replay(case):
         judge_class(t, case["seed"], case["nref"], nrov, places, case["nmodes"], case["kind"], case["rot"], case["shift"], case["two_algs"],
                     level=float(case.get("level", 1.0)))
     elif r == "e2e":
-        judge_e2e(t, case["seed"], case["nref"], nrov, places, case["m"], case["dshift"])
+        ops = case.get("ops")
+        judge_e2e(t, case["seed"], case["nref"], nrov, places, case["m"], case["dshift"],
+                  ops=(str(ops[0]), str(ops[1]), bool(ops[2])) if ops else None)
+    elif r == "class-ops":
+        judge_class_ops(t, case["seed"], case["nref"], nrov, places, case["nmodes"], case["kind"], case["rot"], case["shift"],
+                        case["two_algs"], case["op"], case["subset"], case["seq"], case["gsel"], level=float(case.get("level", 1.0)))
     else:
         raise ValueError(f"unknown route {r}")
     return t
